@@ -413,10 +413,10 @@ def generate(rnd, n_books=1, n_sheets=2, n_const=14, n_formula=12, rows=6, cols=
         cand = [a for a in free if a not in never and a not in spill_cells and (a[0], a[2]) != col_reserved]
         if not cand:
             break
-        if arrays and n_arr < 2 and rnd.random() < 0.15:
+        if arrays and n_arr < 3 and rnd.random() < 0.22:
             # an array formula over a free rectangle
             a = rnd.choice(cand)
-            R, C = rnd.choice([(2, 1), (3, 1), (1, 2), (2, 2), (1, 3)])
+            R, C = rnd.choice([(2, 1), (3, 1), (1, 2), (2, 2), (1, 3), (2, 2), (2, 3), (1, 2)])
             rect = [(a[0], a[1] + i_, a[2] + j_) for i_ in range(R) for j_ in range(C)]
             if all(x in cand for x in rect) and a[1] + R - 1 <= rows and a[2] + C - 1 <= cols:
                 src = None
@@ -435,6 +435,17 @@ def generate(rnd, n_books=1, n_sheets=2, n_const=14, n_formula=12, rows=6, cols=
                     wb.cells[a] = ('a', R, C, e)
                     defined.extend(rect)
                     n_arr += 1
+                    # a probe reading a part of the spill that does not start at its first row / column
+                    hosts = [x for x in free if x not in never and x not in spill_cells and (x[0], x[2]) != col_reserved]
+                    if hosts and rnd.random() < 0.8:
+                        h = rnd.choice(hosts)
+                        i0 = rnd.randint(0, R - 1); j0 = rnd.randint(1 if C > 1 else 0, C - 1)
+                        i1 = rnd.randint(i0, R - 1); j1 = rnd.randint(j0, C - 1)
+                        sub = (a[0], a[1] + i0, a[1] + i1, a[2] + j0, a[2] + j1)
+                        pe = ('ref', sub) if (i0, j0) == (i1, j1) and rnd.random() < 0.5 else ('call', 'SUM', [('ref', sub)])
+                        free.remove(h)
+                        wb.cells[h] = ('f', ('bin', '+', pe, ('lit', 0)) if pe[0] == 'ref' else pe)
+                        defined.append(h)
                     continue
         a = rnd.choice(cand)
         free.remove(a)
@@ -447,3 +458,39 @@ def generate(rnd, n_books=1, n_sheets=2, n_const=14, n_formula=12, rows=6, cols=
         wb.cells[a] = ('f', e)
         defined.append(a)
     return wb
+
+
+def range_template(rnd):
+    """a small workbook around one range A1:A3 of sheet 0 with 0..3 populated cells, read as single cells, as the
+    whole range, as a sub-range and through a defined name: (wb, range, name or None, formula cells)"""
+    wb = WB()
+    wb.sheets.append(('b1.xlsx', 'S1'))
+    pop = [i for i in (1, 2, 3) if rnd.random() < 0.6]
+    for i in pop:
+        wb.cells[(0, i, 1)] = ('v', rnd.choice([1, 2, 3, 5, 10, 0.5, -1]))
+    wb.cells[(0, 1, 4)] = ('v', rnd.choice([1, 7]))                                     # D1
+    R = (0, 1, 3, 1, 1)
+    cell = lambda r: ('ref', (0, r, r, 1, 1))
+    outs = []
+
+    def put(r, e):
+        wb.cells[(0, r, 2)] = ('f', e); outs.append((0, r, 2))
+    put(1, ('bin', '*', cell(2), ('lit', 10)))
+    put(2, ('call', 'SUM', [('ref', R)]))
+    put(3, ('call', 'SUM', [('ref', (0, 2, 3, 1, 1))]))
+    put(4, ('call', 'IF', [('bin', '>', cell(1), ('lit', 5)), ('lit', 'big'), ('lit', 'small')]))
+    put(5, ('bin', '+', cell(3), ('ref', (0, 1, 1, 4, 4))))
+    name = None
+    if rnd.random() < 0.5:
+        name = 'RNG'
+        wb.names[name] = ('b1.xlsx', ('ref', R))
+        put(6, ('call', 'SUM', [('name', name)]))
+    wb.explicit = rnd.random() < 0.5
+    if not wb.explicit:
+        # blanks stay unlisted: formulas reading an unpopulated cell on its own are dropped (a range override does not
+        # reach an unlisted blank: known finding range-override-unlisted-blank)
+        for r, needs in ((1, [2]), (4, [1]), (5, [3]), (3, [2, 3])):
+            if any(x not in pop for x in needs):
+                wb.cells.pop((0, r, 2), None)
+                outs.remove((0, r, 2))
+    return wb, R, name, outs
